@@ -169,6 +169,29 @@ def rule_float(c, prog, R="C02.float", foreign=False):
             c.ok(R, f"{ty}:tag")
         else:
             c.violation(R, f"{ty}|tag", f"{ty} is written under <{tagv}>, docs/xml.md names it <{name}>", w.sp, instance=f"{ty}:tag")
+    # every float that reaches the text goes through those impls: a value type that hands an f32 / f64 (or a slice of
+    # them) straight to the Display-based helpers spells INF / -INF / NAN the way Rust does (inf, -inf, NaN)
+    n_routes = 0
+    for f in prog.lib_fns():
+        if f.crate != "rbx_xml" or f.body is None or "::types::" not in f.path:
+            continue
+        if re.search(r"impl rbx_xml::core::XmlType for f(32|64)>", f.path):
+            continue
+        bad = []
+        for x in core.walk_fn(f):
+            if x.get("k") == "MethodCall" and x["m"] in ("write_characters", "write_tag_characters", "write_tag_array") and re.search(r"XmlEventWriter", core.callee_generic(x) or core.callee(x) or "") and x["args"]:
+                a = x["args"][-1] if x["m"] == "write_characters" else x["args"][-1 if x["m"] == "write_tag_characters" else 0]
+                ty = (core.strip(a).get("ty") or "") + " " + (a.get("aty") or "")
+                if re.search(r"\bf(32|64)\b", ty):
+                    bad.append(x)
+        if bad or any(x.get("k") == "MethodCall" and x["m"] == "write_xml" and re.search(r"^f(32|64)$", (core.strip(x["recv"]).get("ty") or "").lstrip("&")) for x in core.walk_fn(f)):
+            n_routes += 1
+        inst = f"float-route:{core.short(f.path)}"
+        if bad:
+            tyname = re.search(r"XmlType for ([\w:<>]+)>::", f.path)
+            c.violation(R, f"float-route|{tyname.group(1) if tyname else f.path}", f"{core.short(f.path)} formats a float with `{bad[0]['m']}` (Rust's Display) instead of the `float` writer: an infinite or NaN component is written as inf / -inf / NaN, where docs/xml.md requires INF / -INF / NAN in upper case — rbx_xml reads its own spelling back (Rust's parser is case-insensitive), a decoder written from the document does not", core.loc(bad[0]), instance=inst)
+        elif any(x.get("k") == "MethodCall" and x["m"] in ("write_characters", "write_tag_characters", "write_tag_array", "write_xml") for x in core.walk_fn(f)) and f.path.endswith("::write_xml"):
+            c.ok(R, inst)
     # XmlEventWriter::write_characters formats with plain `{}` (no precision / width)
     wc = common.find_fn(prog, r"serializer_core::XmlEventWriter.*::write_characters$")
     fa = core.format_args(wc)
